@@ -60,6 +60,8 @@ def families(tier, seed):
             for part in range(parts):
                 out.append(dict(name=f'{WHAT} bounded {decl} {mode} n={n or "all"} [{be}] part {part}/{parts}',
                                 run=_part(decl, mode, seed, n, be, part, parts), label='bounded'))
+    # dd.cudd only: the Python manager needs minutes per predicate at this width
+    out.append(dict(name='printing predicates over variables of 10 and more bits [cudd]', run=cc_.wide_display('cudd'), label='bounded'))
     return out
 
 
